@@ -106,7 +106,34 @@ def boundary_positions(rng, ln):
     return sorted(pick)
 
 
-def gen_case(rng, scale=1, exotic=True, boundary=False):
+def twin_records(rng, src, chrom, mode):
+    """the records of an earlier chromosome, copied to `chrom`: exactly; with every record dropped with probability 1/4; shifted
+    by one base; or with the first and last two records kept and the interior changed (records dropped, SNV alleles re-drawn,
+    calls of biallelic records made homozygous) so that phase sets keep their extent but not their content"""
+    out = []
+    for k, r in enumerate(src):
+        r = dict(r, chrom=chrom, calls=[list(c) for c in r["calls"]])
+        inner = 2 <= k < len(src) - 2
+        if mode == "partial" and rng.random() < 0.25:
+            continue
+        if mode == "shift":
+            r["pos"] += 1
+        if mode == "interior" and inner:
+            x = rng.random()
+            if x < 0.3:
+                continue
+            if x < 0.6 and len(r["alts"]) == 1 and len(r["ref"]) == 1 and len(r["alts"][0]) == 1:
+                r["ref"], r["alts"] = r["alts"][0], [r["ref"]]
+            elif x < 0.8:
+                i = rng.randrange(len(r["calls"]))
+                gt = r["calls"][i][0]
+                sep = "|" if "|" in gt else "/"
+                r["calls"][i][0] = sep.join(["0"] * len(gt.replace("|", "/").split("/")))
+        out.append(r)
+    return out
+
+
+def gen_case(rng, scale=1, exotic=True, boundary=False, twin=True):
     """`boundary`: every chromosome is likely to have records at the edges of the contig (see boundary_positions), short contigs
     (1-6 bases, where every position is an edge) occur, and the file is more often compressed / indexed and queried with
     --chromosome; without it the same things happen at a lower rate"""
@@ -124,7 +151,20 @@ def gen_case(rng, scale=1, exotic=True, boundary=False):
             kind = "mixed"
     records = []
     unsorted_file = rng.random() < 0.03
+    twins = {}
     for chrom, ln in contigs.items():
+        # twin chromosomes (duplicated / alt contigs, coordinate-identical synthetic contigs): a later chromosome repeats the
+        # records of an earlier one, so that phase sets (and their non-overlapping pieces) with identical start and end
+        # coordinates occur on different chromosomes of one file
+        earlier = [c for c in contigs if c != chrom and any(r["chrom"] == c for r in records)]
+        if twin and earlier and rng.random() < 0.45:
+            src = rng.choice(earlier)
+            mode = rng.choice(["exact", "exact", "partial", "shift", "interior", "interior"])
+            twins[chrom] = [src, mode]
+            records += twin_records(rng, [r for r in records if r["chrom"] == src], chrom, mode)
+            kinds[chrom] = kinds[src]
+            contigs[chrom] = contigs[src] + (1 if mode == "shift" else 0)
+            continue
         dense = rng.random() < 0.35          # many heterozygous phased calls in few interleaved sets: lots of splitting
         n = (rng.choice([10, 16, 24]) if dense else rng.choice([0, 1, 3, 6, 10, 16, 24])) * scale
         positions = [rng.randrange(1, ln + 1) for _ in range(n)]
@@ -200,4 +240,4 @@ def gen_case(rng, scale=1, exotic=True, boundary=False):
     return {"contigs": contigs, "samples": samples, "ploidy": ploidy, "kind": kind, "kinds": kinds, "records": records,
             "only_snvs": rng.random() < 0.3, "chromosomes": chroms,
             "sample": rng.choice(samples) if rng.random() < 0.3 else None, "exotic": exotic, "boundary": boundary,
-            "indexed": indexed, "storage": storage, "chr_lengths": chr_lengths}
+            "indexed": indexed, "storage": storage, "chr_lengths": chr_lengths, "twins": twins}
